@@ -37,6 +37,15 @@ T = {
     "C08": ("exploration", "model-based differential on MapSpec (own AST algebra): round trip, shape, output_key/input_keys bijection, malformation operators, rename/add_axes, consistency helpers",
             "Exhaustive over all small specs (<=2 inputs, rank<=2, 3 index names) x all shapes with sizes 1..4 x all linear indices, plus sampled larger specs, mutated texts and spec sets.",
             "Text mutations: word text may never be dropped silently; stray punctuation is judged only when a clear non-identifier name results (see evidence rule).", "4/C08"),
+    "C07": ("exploration", "history differential: one operation history applied to a reference masked object array and to every registered storage backend; cross-backend agreement",
+            "Exhaustive over tiny geometries (external rank 0..2, internal rank 0..1, all 2^rank interleavings, all key tuples, histories <= 3) plus random histories up to rank 3; dump/getitem/to_array/mask/mask_linear/has_index/get_from_index/persist-reopen compared through one canonical rendering.",
+            "Slice-dump semantics taken from the repository's storage tests; behaviours the statement does not determine are not judged; shared_memory_dict is sampled.", "4/C07"),
+    "C09": ("exploration", "history + twin differential: one generated operation history on a cached pipeline and on an uncached twin built from separate probes; immediate-repeat monitor on the call log; cached maps vs the denotation",
+            "Histories of <= 12 operations (root-only and intermediate-supplying calls over recurring values, full_output, update_defaults / update_bound / replace) x 4 cache types x random cached subsets; cached MapSpec pipelines with repeated inputs under sequential / thread / process execution sharing the cache.",
+            "No-re-execution clause demanded only for immediately repeated root-complete calls; staleness after pipeline mutations is a recorded known finding (classified by replaying the reference evaluator on the pre-mutation state).", "4/C09"),
+    "C10": ("exploration", "differential of rewritten pipelines against the reference evaluator on the ORIGINAL description modulo the name map; non-interference re-evaluation; add_mapspec_axis slice-wise comparison",
+            "12 rewrites and compositions of up to 3 on generated DAGs (tuple-output interior and leaf nodes, bound values, defaults), called with dotted keys and nested dicts; copy/pickle/rename/scope also under map; add_mapspec_axis lifted over 3 values.",
+            "Inputs of an output inside a nested function are read from the rewritten pipeline's root_args (choice of inputs only); nest subsets are convex with a single leaf; two recorded known findings (scoped names in NestedPipeFunc, duplicate merge in simplified_pipeline).", "4/C10"),
     "C11": ("exploration", "differential of restricted runs (subpipeline, map(output_names), auto_subpipeline) against the harness's own needed-set / computability analysis and the reference evaluator; call log = exactly the needed functions",
             "All non-empty output sets (<=4 outputs; sampled beyond) x exact cuts (root-only, interior-only, mixed) on call-DAGs with nullary / default-only functions and on MapSpec pipelines; uncomputable requests must raise naming a missing name.",
             "Functions taking a defaulted root declare the default themselves; no defaults on parameters naming an upstream output; surplus inputs are C12's business.", "4/C11"),
